@@ -841,6 +841,11 @@ def adjoint_programs(algopy):
         ("div_num_col_over_mat", lambda x: algopy.sum(algopy.reshape(x[:2] * x[2:], (2, 1)) / (algopy.reshape(x, (2, 2)) + 2.) * W22)),
         ("mul_scalar_times_mat", lambda x: algopy.sum((x[0] * x[3]) * algopy.reshape(x * x, (2, 2)) * W22 + algopy.reshape(x, (2, 2)) * (x[1] * x[2]))),
         ("sub_row_minus_mat", lambda x: algopy.sum(((x[:2] * x[2:]) - algopy.reshape(x * x, (2, 2))) * ((x[1] * x[1]) + algopy.reshape(x, (2, 2))) * W22)),
+        # both kinds of broadcasting at once: the smaller operand gets axes prepended AND has a length-one axis that is stretched
+        ("bcast_col_times_3d", lambda x: algopy.sum(algopy.reshape(x[:3] * x[1:], (3, 1)) * (numpy.arange(1., 25.).reshape(2, 3, 4) * 0.125))),
+        ("bcast_col_over_3d_traced", lambda x: algopy.sum(algopy.reshape(x[:3] * x[1:], (3, 1)) / (algopy.reshape(algopy.tile(x, 6), (2, 3, 4)) + numpy.arange(1., 25.).reshape(2, 3, 4) * 0.25))),
+        ("bcast_len1_plus_matrix", lambda x: algopy.sum(((x[:1] * x[1:2]) + algopy.reshape(algopy.tile(x, 2)[:6], (2, 3))) * ((x[2:3] * x[3:]) - algopy.reshape(algopy.tile(x * x, 2)[:6], (2, 3))) * numpy.arange(1., 7.).reshape(2, 3))),
+        ("bcast_row1_times_3d_traced", lambda x: algopy.sum(algopy.reshape(x * x, (1, 4)) * algopy.reshape(algopy.tile(x, 6), (2, 3, 4)) * (numpy.arange(1., 25.).reshape(2, 3, 4) * 0.125))),
         # a plain array as the left / right operand of dot, matrix and vector forms
         ("dot_constM_M", lambda x: algopy.sum(algopy.dot(W22, algopy.reshape(x * x, (2, 2))) * W22.T)),
         ("dot_M_constM", lambda x: algopy.sum(algopy.dot(algopy.reshape(x * x, (2, 2)), W22) * W22.T)),
